@@ -209,9 +209,26 @@ def record_mw(seed, wd, nsteps, cut_mode):
             if r.get("rc") != 0:
                 raise vlib.MachineryError("C14 metadynamics config rejected: %s" % r.get("errtext"))
         pos = {1: [], 2: []}
+        stepped = {1: 0, 2: 0}
+        repeat = {1: False, 2: False}
         for k in range(nsteps):
             w = rng.choice([1, 2])
             v = 3 - w
+            if stepped[w] >= 2 and rng.random() < 0.07:
+                # stop this walker, save its state, start a new process image, load the state, set up the output
+                d = ds[w - 1]
+                st = d.cmd(op="save")["state"]
+                d.cmd(op="destroy")
+                d.cmd(op="new", natoms=2, prefix="o", restartFreq=MW_R, trajFreq=0)
+                r = d.cmd(op="config", text=mw_config(w), finish=False)
+                r2 = d.cmd(op="load", state=st)
+                r3 = d.cmd(op="setupout")
+                if r.get("rc") != 0 or r2.get("rc") != 0 or r3.get("rc") != 0:
+                    raise vlib.MachineryError("C14 restart of a metadynamics walker failed: %s %s %s" % (r, r2, r3))
+                events.append({"e": "Restart", "w": w})
+                stepped[w] = 0
+                repeat[w] = True    # the last step is repeated: the engine presents the same position again
+                continue
             rd, pd = os.path.join(wd, "w%d" % w), os.path.join(wd, "w%d" % v)
             view = os.path.join(rd, "view")
             # the peer's snapshot as it is on disk, and a prefix of its hills file
@@ -234,8 +251,13 @@ def record_mw(seed, wd, nsteps, cut_mode):
             reg = open(os.path.join(rd, "reg.txt")).read()
             if ("w%d " % v) not in reg:
                 open(os.path.join(rd, "reg.txt"), "a").write("w%d %s\n" % (v, os.path.join(view, "w%d.files.txt" % v)))
-            x = rng.randint(-2, 2)
-            pos[w].append(x)
+            if repeat[w]:
+                x = pos[w][-1]
+                repeat[w] = False
+            else:
+                x = rng.randint(-2, 2)
+                pos[w].append(x)
+            stepped[w] += 1
             d = ds[w - 1]
             d.cmd(op="log")
             r = d.cmd(op="step", pos=[[0, 0, 0.25 + 0.5 * x], [0, 0, 0]])
@@ -248,7 +270,7 @@ def record_mw(seed, wd, nsteps, cut_mode):
             E = r["E"] * 65536.0
             events.append({"e": "Step", "w": w, "t": r["it"], "x": x, "view": {"n": len(recs), "recs": recs, "partial": partial, "sstep": sstep},
                            "recv": recv, "resync": resync, "E": int(round(E)) if abs(E - round(E)) < 1e-6 else "offlattice %r" % E,
-                           "pos": [pos[1] + [0], pos[2] + [0]], "err": r.get("rc", 0)})
+                           "pos": [pos[1] + [0], pos[2] + [0]], "err": r.get("rc", 0), "errtext": (r.get("errtext") or "")[:160]})
     finally:
         for d in ds:
             d.close()
